@@ -20,6 +20,7 @@ CLAIMED = {
          "(wages -> total income -> AGI -> taxable income up; tax -> total tax up; deduction -> taxable income down; credit -> total "
          "tax down; withholding -> payments up; medical / real-estate / cash gifts -> Schedule A up; AGI -> medical deduction down), "
          "exact, no tolerance; C16_tax_monotone_<y>: the regenerated figure_tax is monotone for every status and income. "
+         "Non-vacuity: C16_slope_<y> is instantiated, inside Coq, on a real pair of solved returns (base, d dollars more withheld). "
          "Search: metamorphic pairs of REAL solved returns - all permutations of up to 3 copies of each of six forms, increments of a wage "
          "box, of each Schedule A amount, of each withholding box - thousands of pairs per thorough run.",
     design_ref='DESIGN.md §4 C16',
